@@ -210,8 +210,16 @@ def run_studio(ctx, seed):
             w['random_limit'] = random_limit
             if random_limit:
                 ctx.count('lookup_studios_with_a_random_sample')
+            # (own stream) a lookup that does NOT skip incomplete recordings and asks for a few per category only: every category still draws
+            # min(limit, what it has) recordings, all of them its own - whatever its prefix-sibling categories hold
+            lr = random.Random(seed * 13 + 1)
+            small_limit = lr.choice([1, 2, 3]) if (lr.random() < 0.3 and not random_limit) else None
+            w['no_skip_limit'] = small_limit
+            if small_limit:
+                ctx.count('lookup_studios_with_incomplete_recordings_included_and_a_small_limit')
             studio = PlaybackStudio(given, Tuner(), rec, lookup_properties=RecordingLookupProperties(
-                start_date=now - datetime.timedelta(days=1), limit=random_limit or 20, random_sample=bool(random_limit)),
+                start_date=now - datetime.timedelta(days=1), limit=random_limit or small_limit or 20, random_sample=bool(random_limit),
+                skip_incomplete=not small_limit),
                                     compare_execution_config=cfg)
 
         def play_once(failing_now):
@@ -292,6 +300,11 @@ def run_studio(ctx, seed):
                     if len(set(got_ids)) != len(got_ids) or not set(got_ids) <= set(want) or len(got_ids) != min(w['random_limit'], len(want)):
                         ctx.violation('random sample of a category (limit %d): %d recordings played, %d distinct, %d exist' % (
                             w['random_limit'], len(got_ids), len(set(got_ids)), len(want)), dict(ww, category=c))
+                elif w.get('no_skip_limit'):
+                    allc = set(want) | set(r for r, _ in incomplete[c])
+                    if len(set(got_ids)) != len(got_ids) or not set(got_ids) <= allc or len(got_ids) != min(w['no_skip_limit'], len(allc)):
+                        ctx.violation('lookup including incomplete recordings (limit %d): category received %d recordings (%d distinct, %d its own), it has %d' % (
+                            w['no_skip_limit'], len(got_ids), len(set(got_ids)), len(set(got_ids) & allc), len(allc)), dict(ww, category=c))
                 else:
                     if sorted(got_ids) != sorted(want):
                         foreign = [tok_of.get(r) for r in got_ids if r not in set(want)]
@@ -300,6 +313,8 @@ def run_studio(ctx, seed):
                 for rid, status, msg in out[c]:
                     ctx.count('comparisons_checked')
                     tok = tok_of.get(rid)
+                    if w.get('no_skip_limit') and any(rid == r for r, _ in incomplete[c]):
+                        continue        # (the verdict of a recording that was cut short is not judged here)
                     if rid in state.get('raising', ()):
                         if status != 'EqualizerFailure':
                             ctx.violation('a recording whose playback function failed was reported as %s' % status, dict(ww, category=c, token=tok))
@@ -324,7 +339,7 @@ def run_studio(ctx, seed):
                 if n != 1:
                     ctx.violation('a recording was replayed %d times in one studio run' % n, dict(ww, token=tok_of.get(rid)))
             should = set(rid for c in cats if c not in failing_now for rid, _ in saved[c])
-            if w.get('random_limit'):
+            if w.get('random_limit') or w.get('no_skip_limit'):
                 should = set(r[0] for c in out if not isinstance(out[c], Exception) for r in out[c])
             if set(plays) != should:
                 ctx.violation('replayed set differs from the selected set (%d vs %d)' % (len(plays), len(should)), ww)
@@ -364,7 +379,7 @@ def run_studio(ctx, seed):
         judge(out1, j1, failing, 'first')
         out2, j2 = play_once(failing)
         same = set(out1) == set(out2) and all((isinstance(out1[c], Exception) and isinstance(out2.get(c), Exception)) or out1[c] == out2.get(c) for c in out1)
-        if not same and not w.get('random_limit'):
+        if not same and not w.get('random_limit') and not w.get('no_skip_limit'):
             ctx.violation('two runs of the same studio input report results in a different order / content', w)
         # the tuner's situation changes between two plays of the same studio (a fixed tuner, a new failure)
         failing3 = set(c for c in cats if (c in failing) != (rng.random() < 0.5))
